@@ -887,6 +887,42 @@ impl Kernel {
             let d = self.new_desc(DescKind::Null, origin);
             return Ok(self.install(pid, d, cloexec, 0));
         }
+        // procfs, as far as a program may consult it about its children: /proc/<pid>/stat
+        if let Some(rest) = path.strip_prefix(b"/proc/") {
+            if let Some(num) = rest.strip_suffix(b"/stat") {
+                let target = std::str::from_utf8(num).ok().and_then(|n| n.parse::<i32>().ok());
+                let line = target.and_then(|tp| self.procs.get(&tp)).filter(|p| !matches!(p.state, PState::Reaped)).map(|p| {
+                    // the command name is the file name of the executable, cut to 15 bytes, in
+                    // parentheses - whatever characters it is made of
+                    let comm: Vec<u8> = match &p.exec {
+                        Some(rec) => rec.resolved.rsplit(|&b| b == b'/').next().unwrap_or(b"").iter().take(15).cloned().collect(),
+                        None => b"subsim".to_vec(),
+                    };
+                    let st = match p.state {
+                        PState::Zombie { .. } => 'Z',
+                        _ if p.stopped => 'T',
+                        PState::Sleeping { .. } => 'S',
+                        _ => 'R',
+                    };
+                    let mut l = format!("{} (", p.pid).into_bytes();
+                    l.extend_from_slice(&comm);
+                    l.extend_from_slice(format!(") {} {} {} {} 0 -1 4194304 0 0 0 0 0 0 0 0 20 0 1 0 100 0 0\n", st, p.ppid, p.pgid, p.pgid).as_bytes());
+                    l
+                });
+                return match line {
+                    None => Err(libc::ENOENT),
+                    Some(data) => {
+                        if let Some(e) = self.fdalloc_fault() {
+                            return Err(e);
+                        }
+                        self.probe("procfs_stat_read");
+                        self.files.push(FileObj { data, label: "(procfs)".into() });
+                        let d = self.new_desc(DescKind::File(self.files.len() - 1), origin);
+                        Ok(self.install(pid, d, cloexec, 0))
+                    }
+                };
+            }
+        }
         if let Some(idx) = self.files.iter().position(|f| f.label.as_bytes() == path) {
             if let Some(e) = self.fdalloc_fault() {
                 return Err(e);
